@@ -183,7 +183,15 @@ def _filearr_getitem(interp, a, k):
             raise Unsupported("2d row selection")
         cols = list(csel)
         if any(is_sym(c) for c in cols):
-            raise Unsupported("symbolic byte columns")
+            # symbolic but contiguous columns c0, c0+1, ...
+            c0 = cols[0]
+            for i, c in enumerate(cols):
+                if sym._lift(_z(c) == _z(c0) + i) is not True:
+                    raise Unsupported("non-contiguous symbolic byte columns")
+            rows, width = a.rows2d
+            if not interp.truth(sym_and(c0 >= 0, c0 + len(cols) <= width)):
+                raise ProgExc(IndexError, "column out of bounds")
+            return Sel2D(a, cols)
         if cols != list(range(cols[0], cols[0] + len(cols))) if cols else True:
             if cols:
                 raise Unsupported("non-contiguous byte columns")
@@ -205,6 +213,45 @@ def _with_bytes(self, nbytes):
 
 
 FileArr._with_bytes = _with_bytes
+
+
+class BitOf(object):
+    """(x & (1 << bit)) >> bit of every element of arr"""
+
+    def __init__(self, arr, bit):
+        self.arr = arr
+        self.bit = bit
+
+    def sym_len(self):
+        return self.arr.sym_len()
+
+
+class Masked(object):
+    def __init__(self, arr, mask):
+        self.arr = arr
+        self.mask = mask
+
+
+def m_bitwise_and(interp, a, mask):
+    if isinstance(a, FileArr):
+        return Masked(a, mask)
+    return np.bitwise_and(a, mask)
+
+
+def m_right_shift(interp, a, n):
+    if isinstance(a, Masked):
+        M.trusted("numpy.bitwise_and / right_shift are elementwise; ((x & (1 << b)) >> b) == (x >> b) & 1 "
+                  "(bit-vector lemma, harness bit_extraction_lemma)")
+        m = a.mask
+        if is_sym(n):
+            for k in range(64):
+                if interp.truth(n == k):
+                    n = k
+                    break
+        if isinstance(m, int) and isinstance(n, int) and m == (1 << n):
+            return BitOf(a.arr, n)
+        raise Unsupported("mask/shift pair")
+    return np.right_shift(a, n)
 
 
 class Sel2D(object):
@@ -580,6 +627,11 @@ def m_zeros(interp, n, dtype=float):
     if interp.truth(n < 0):
         from .interp import ProgExc
         raise ProgExc(ValueError, "negative dimensions")
+    if dt.kind in "iu" and dt != np.dtype('uint8'):
+        # small index/width arrays: a length fixed by the path condition is made concrete (case split 0..16)
+        for k in range(17):
+            if interp.truth(n == k):
+                return ListArr([0] * k, dt)
     if dt == np.dtype('uint8') and interp.call_stack and interp.call_stack[-1].endswith("fromfile"):
         return ByteBuf(n).view()
     return AbsArr(n, dt, ("zeros",))
@@ -889,6 +941,8 @@ def install(interp, m):
         "log": lambda x: _unary_real(interp, "LN", x, np.log),
         "square": lambda x: x * x,
         "reciprocal": lambda *a, **k: m_reciprocal(interp, *a, **k),
+        "bitwise_and": lambda *a, **k: m_bitwise_and(interp, *a, **k),
+        "right_shift": lambda *a, **k: m_right_shift(interp, *a, **k),
         "sqrt": lambda *a, **k: m_sqrt(interp, *a, **k),
         "all": lambda x: m_np_all(interp, x),
         "logical_not": lambda x: m_logical_not(interp, x),
